@@ -86,7 +86,8 @@ def check(defn, mode):
         if mode == "add":
             fs.addfilter("f", defn["conditions"], defn["actions"], defn["matchtype"])
         else:
-            fs.addfilter("f", [("Subject", ":is", "x")], [("keep",)])
+            # the filter being updated differs from the new definition in everything, match type included
+            fs.addfilter("f", [("Subject", ":is", "x"), ("exists", "y")], [("keep",)], "allof" if defn["matchtype"] == "anyof" else "anyof")
             if mode.startswith("disabled"):
                 fs.disablefilter("f")
             if mode.endswith("rename"):
